@@ -46,49 +46,71 @@ def order_pair(a, b):
     return (a, b) if repr(a) <= repr(b) else (b, a)
 
 
+OPTION_PREDS = {
+    "core::option::Option::<T>::is_none": ("err", "ok"),
+    "core::option::Option::<T>::is_some": ("ok", "err"),
+    "core::result::Result::<T, E>::is_ok": ("ok", "err"),
+    "core::result::Result::<T, E>::is_err": ("err", "ok"),
+}
+
+
 def bool_atom(t):
-    """Return (atom, polarity) for a bool-valued term, ('const', bool) for constants, or None."""
-    pol = True
+    """Return (atom, value_when_true, value_when_false) for a bool-valued term,
+    ('const', bool, None) for constants, or None.  `x.is_none()` is the same atom as a match on x."""
+    neg = False
     while True:
         if t[0] == "unop" and t[1] == "Not":
-            pol = not pol
+            neg = not neg
             t = t[2]
             continue
         break
+    r = _bool_atom_pos(t)
+    if r is None:
+        return None
+    if r[0] == "const":
+        return ("const", r[1] != neg, None)
+    atom, vt, vf = r
+    return (atom, vf, vt) if neg else (atom, vt, vf)
+
+
+def _bool_atom_pos(t):
     if t[0] == "const" and isinstance(t[2], bool):
-        return ("const", t[2] == pol)
+        return ("const", t[2], None)
     if t[0] == "call" and t[1] in EQ_CALLEES and len(t[3]) == 2:
         a, b = order_pair(t[3][0], t[3][1])
-        return (("EQ", a, b), pol == EQ_CALLEES[t[1]])
+        return (("EQ", a, b), True, False) if EQ_CALLEES[t[1]] else (("EQ", a, b), False, True)
     if t[0] == "binop":
         op, a, b = t[1], t[2], t[3]
         if op == "Eq":
             x, y = order_pair(a, b)
-            return (("EQ", x, y), pol)
+            return (("EQ", x, y), True, False)
         if op == "Ne":
             x, y = order_pair(a, b)
-            return (("EQ", x, y), not pol)
+            return (("EQ", x, y), False, True)
         if op == "Lt":
-            return (("CMP", "Lt", a, b), pol)
+            return (("CMP", "Lt", a, b), True, False)
         if op == "Le":
-            return (("CMP", "Le", a, b), pol)
+            return (("CMP", "Le", a, b), True, False)
         if op == "Gt":
-            return (("CMP", "Lt", b, a), pol)
+            return (("CMP", "Lt", b, a), True, False)
         if op == "Ge":
-            return (("CMP", "Le", b, a), pol)
+            return (("CMP", "Le", b, a), True, False)
+    if t[0] == "call" and t[1] in OPTION_PREDS and len(t[3]) == 1:
+        vt, vf = OPTION_PREDS[t[1]]
+        return (("VARIANT", P.strip_ok_preserving(t[3][0])), vt, vf)
     if t[0] == "call" and t[1] in PRED_CALLEES:
-        return (("PRED", t[1], t[3]), pol)
+        return (("PRED", t[1], t[3]), True, False)
     if t[0] == "call" and t[1] in ("core::cmp::PartialOrd::lt", "core::cmp::PartialOrd::le",
                                    "core::cmp::PartialOrd::gt", "core::cmp::PartialOrd::ge") and len(t[3]) == 2:
         a, b = t[3]
         nm = t[1].rsplit("::", 1)[1]
         if nm == "lt":
-            return (("CMP", "Lt", a, b), pol)
+            return (("CMP", "Lt", a, b), True, False)
         if nm == "le":
-            return (("CMP", "Le", a, b), pol)
+            return (("CMP", "Le", a, b), True, False)
         if nm == "gt":
-            return (("CMP", "Lt", b, a), pol)
-        return (("CMP", "Le", b, a), pol)
+            return (("CMP", "Lt", b, a), True, False)
+        return (("CMP", "Le", b, a), True, False)
     return None
 
 
@@ -287,13 +309,13 @@ class GEA:
             return [(x, val) for x in targets]
         if ba[0] == "const":
             return [((true_t if ba[1] else false_t), val)]
-        atom, pol = ba
+        atom, vt, vf = ba
         cur = val.get(atom)
         out = []
-        for tg, truth in ((true_t, True), (false_t, False)):
+        for tg, v in ((true_t, vt), (false_t, vf)):
             if tg is None:
                 continue
-            want = frozenset([truth == pol])
+            want = frozenset([v])
             nv = want if cur is None else (want & cur)
             if not nv:
                 continue
